@@ -57,6 +57,10 @@ pub const SESSIONS: &[(&str, &str)] = &[
     // a known, unrepaired finding (known_findings.json KF1): sessions named kf_* are never renamed,
     // so that the minimised statement list identifies the finding exactly
     ("kf_cell_of_wide_value", "pick := () -> int|float { return 1 }\nx := pick()\nm := mut x\nif c: mut int = m { 1 } else { 2 }"),
+    // a call made by the host declares as little in its caller as a call made in the language
+    ("host_call_unscoped", "n := 10\ntotal := 100\ndouble := (n: int) -> int { total := n * 2; return total }\ndouble(3)\n(n, total)\nsame := (double: int, same: int) -> int { n := double + same; return n }\nsame(1, 2)\n(n, total)"),
+    // `_` and friends are ordinary identifiers
+    ("underscore_names", "_ := 100\na := 1\nb := _ + a\nb\n_x := 5\n_ := _ + _x\n(_, _x, b)\nans := 1\nit := 2\nlast := 3\n7\n(ans, it, last, _)\n__ := _\n8\n(__, _)"),
     ("own_name_param", "f := (f: int, g: int) -> int { return f + g }\nf(1, 2)\ng := (x: int) -> int { g := x + 1; return g }\ng(1)\ng(2)"),
 ];
 
@@ -569,7 +573,7 @@ pub fn run_scenario(sc: &Scenario) -> RunReport {
         // stateful functions see the same history on both sides)
         // Only when the session ran to its end on both routes: after an inconclusive stop the
         // incremental interpreter may hold bindings of a partly executed input.
-        if let (true, Some((at, binterp))) = (sc.probe_calls && alive, replica.as_ref().filter(|r| r.0 == fed)) {
+        if let (true, Some((at, binterp))) = (sc.probe_calls && alive, replica.as_mut().filter(|r| r.0 == fed)) {
             let _ = at;
             let fnames: Vec<String> = names.iter().filter(|n| matches!(interp.get_variable(n), Some(Variable::Function(_)))).cloned().collect();
             for n in fnames {
@@ -706,13 +710,30 @@ pub fn run_scenario(sc: &Scenario) -> RunReport {
                     rev.reverse();
                     vectors.push(rev);
                 }
-                for pairs in vectors {
+                for (vi, pairs) in vectors.into_iter().enumerate() {
                     let args: Vec<Variable> = pairs.iter().map(|p| p.0.clone()).collect();
                     let text = format!("{n}({})", pairs.iter().map(|p| p.1.clone()).collect::<Vec<_>>().join(", "));
                     rep.events += 2;
                     rep.hostcalls += 1;
-                    let lang = guarded(|| Code::parse(&interp, &text).map(|c| c.exec()));
-                    let host = guarded(|| f.clone().create_call(args.clone()).map(|c| c.exec()));
+                    // every other vector: both calls run UNSCOPED on their interpreter, as the REPL
+                    // runs its inputs (a call declares nothing in its caller, whichever way it is made)
+                    let unscoped = vi % 2 == 1;
+                    let lang = if unscoped {
+                        guarded(|| match Code::parse(&interp, &text) {
+                            Ok(c) => Ok(c.exec_unscoped(&mut interp)),
+                            Err(e) => Err(e),
+                        })
+                    } else {
+                        guarded(|| Code::parse(&interp, &text).map(|c| c.exec()))
+                    };
+                    let host = if unscoped {
+                        guarded(|| match f.clone().create_call(args.clone()) {
+                            Ok(c) => Ok(c.exec_unscoped(&mut *binterp)),
+                            Err(e) => Err(e),
+                        })
+                    } else {
+                        guarded(|| f.clone().create_call(args.clone()).map(|c| c.exec()))
+                    };
                     let (lang, host) = match (lang, host) {
                         (Ok(l), Ok(h)) => (l, h),
                         (Ok(Ok(Ok(v))), Err(p)) if !simplesl_verif_seams::fuel::is_fuel_panic(&p) => {
